@@ -440,7 +440,9 @@ namespace pika {
           : callback_(std::forward<CB>(cb))
           , state_(st.state_)
         {
-            if (state_) state_->add_callback(this);
+            // If the callback was not registered (it was run right away because stop had already
+            // been requested, or stop can never be requested) there is nothing to deregister later
+            if (state_ && !state_->add_callback(this)) state_.reset();
         }
 
         template <typename CB,
@@ -451,7 +453,9 @@ namespace pika {
           : callback_(std::forward<CB>(cb))
           , state_(std::move(st.state_))
         {
-            if (state_) state_->add_callback(this);
+            // If the callback was not registered (it was run right away because stop had already
+            // been requested, or stop can never be requested) there is nothing to deregister later
+            if (state_ && !state_->add_callback(this)) state_.reset();
         }
 
         // Effects: Unregisters the callback from the owned stop state, if any.
